@@ -18,9 +18,10 @@ var families = map[string]func(*Runner){
 	"tamper":    FamilyTamper,
 	"pool":      FamilyPool,
 	"clock":     FamilyClock,
+	"replay":    FamilyReplay,
 }
 
-var familyOrder = []string{"happy", "crash", "subsets", "fault", "recrash", "instances", "startup", "dedup", "tamper", "pool", "clock"}
+var familyOrder = []string{"happy", "crash", "subsets", "fault", "recrash", "instances", "startup", "dedup", "tamper", "pool", "clock", "replay"}
 
 // TestCorpus records the scenario corpus. Environment: VERIF_OUT (ndjson file to
 // append to), VERIF_TIER, VERIF_SEED, VERIF_SHARD=i/n, VERIF_FAMILIES (comma
